@@ -704,7 +704,7 @@ def proj_key(projs):
         if pe == "*":
             out.append("*")
         elif "f" in pe:
-            out.append(("f", pe["f"], pe.get("n")))
+            out.append(("f", pe["f"], pe.get("n"), pe.get("of")))
         elif "dc" in pe:
             out.append(("dc", pe["dc"]))
         elif "ix" in pe:
@@ -722,7 +722,7 @@ def place_from_key(key):
         if k == "*":
             out.append("*")
         elif k[0] == "f":
-            out.append({"f": k[1], "n": k[2]})
+            out.append({"f": k[1], "n": k[2], "of": k[3] if len(k) > 3 else None})
         elif k[0] == "dc":
             out.append({"dc": k[1]})
         else:
@@ -767,7 +767,7 @@ def project(e, pe):
             if pe["f"] == 0:
                 return ("bin", e[1][:-len("WithOverflow")], e[2], e[3])
             return ("overflowed", e)
-        return ("field", e, name)
+        return ("field", e, name, pe.get("of"))
     if "dc" in pe:
         return ("downcast", e, pe["dc"])
     if "ix" in pe:
